@@ -334,44 +334,45 @@ theorem callFn_err_ignorable {op : Op} {s : Nat} {ins : List Val} {e : Err} {s' 
     simp only [Prod.mk.injEq, Except.error.injEq] at h
     rw [← h.1]; rfl
 
-/-- `map_(self._maybe_call_fn, ..)` then `map(self._normalize_outputs, ..)` over a stream whose first
-error (if any) is terminal: the values before the first error and that error are `Ref.callGroups` -/
-theorem observe_callEv (ignore : Bool) (op : Op) (s : Nat) (evs : List (Ev (List Val)))
-    (hcl : ∀ e, (observe evs).2 = some e → terminal ignore e = true) :
+/-- `map_(self._maybe_call_fn, ..)` then `map(self._normalize_outputs, ..)`: the values before the
+first error and that error are `Ref.callGroups` over the incoming groups — with skipping on, an
+incoming skippable error is dropped by the same `iter_ignore_error` (`Ref.skipNT`) -/
+theorem observe_callEv (ignore : Bool) (op : Op) (s : Nat) (evs : List (Ev (List Val))) :
     observe (mapEv (fun v => liftErr (normalizeOutputs op v))
         (if ignore then dropIgn (callEv op s evs) else callEv op s evs))
-      = Ref.callGroups ignore op (observe evs).2 s (observe evs).1 := by
+      = Ref.callGroups ignore op (observe (Ref.skipNT ignore evs)).2 s (observe (Ref.skipNT ignore evs)).1 := by
   have hn : (fun v => liftErr (normalizeOutputs op v))
       = fun v => (.ok (normOuts op v) : Ev (List Val)) := by
     funext v; simp [normalizeOutputs_eq]
   rw [hn]
   induction evs generalizing s with
-  | nil => cases ignore <;> simp [callEv, dropIgn, mapEv, observe, Ref.callGroups]
+  | nil => cases ignore <;> simp [callEv, dropIgn, mapEv, observe, Ref.callGroups, Ref.skipNT]
   | cons ev rest ih =>
     cases ev with
     | error e =>
-      have ht := hcl e rfl
       cases ignore with
-      | false => simp [callEv, mapEv, observe, Ref.callGroups]
+      | false => simp [callEv, mapEv, observe, Ref.callGroups, Ref.skipNT, terminal]
       | true =>
-        have hi : e.ignorable = false := by simpa [terminal] using ht
-        simp [callEv, dropIgn, hi, mapEv, observe, Ref.callGroups]
+        have ih := ih s
+        simp only [if_true] at ih
+        by_cases hi : e.ignorable = true
+        · simp [callEv, dropIgn, hi, Ref.skipNT, terminal, ih]
+        · simp [callEv, dropIgn, hi, mapEv, observe, Ref.callGroups, Ref.skipNT, terminal]
     | ok g =>
-      have hcl' : ∀ e, (observe rest).2 = some e → terminal ignore e = true := by
-        intro e he; exact hcl e (by rw [observe_cons_ok]; exact he)
+      simp only [Ref.skipNT]
       rw [observe_cons_ok]
       rcases hc : callFn op s g with ⟨r, s'⟩
-      have ih := ih s' hcl'
+      have ih := ih s'
       cases r with
       | ok v =>
         cases ignore with
         | false =>
           simp only [Bool.false_eq_true, if_false] at ih
-          simp only [Bool.false_eq_true, if_false, callEv, hc, mapEv, normalizeOutputs_eq, liftErr_ok,
+          simp only [Bool.false_eq_true, if_false, callEv, hc, mapEv,
             observe_cons_ok, ih, Ref.callGroups]
         | true =>
           simp only [if_true] at ih
-          simp only [if_true, callEv, hc, dropIgn, mapEv, normalizeOutputs_eq, liftErr_ok,
+          simp only [if_true, callEv, hc, dropIgn, mapEv,
             observe_cons_ok, ih, Ref.callGroups]
       | error ec =>
         have hig := callFn_err_ignorable hc
@@ -394,21 +395,95 @@ structure BatchedOK (ignore : Bool) (op : Op) (s : Nat) (src : List (Ev Val)) : 
   /-- `batch_size > 0` (the builder rejects `fn_batch_size` without it) -/
   batch : 0 < op.batch
   nout : 0 < op.outKeys.length
-  /-- no skippable error reaches the re-batching layers: with skipping on, every record's inputs
-  can be read or fail with a non-skippable error (vacuous with skipping off).  Necessary: finding
-  F-C12-fnbatch-lost -/
-  clean : CleanL ignore (mapEv (fun r => liftErr (getInputs op r)) src)
+  /-- with `fn_batch_size`: no skippable error reaches the first re-batching generator — with
+  skipping on, every record's inputs can be read or fail with a non-skippable error (vacuous with
+  skipping off).  Necessary: finding F-C12-fnbatch-lost.  (Without `fn_batch_size` a record whose
+  inputs cannot be read is skipped like a record whose call fails.) -/
+  clean : op.fnBatch ≠ 0 → CleanL ignore (mapEv (fun r => liftErr (getInputs op r)) src)
   /-- with `fn_batch_size`: the selected inputs of every record are equally long columns -/
   inputs : op.fnBatch ≠ 0 → 0 < op.inKeys.length ∧
     Rebatch.WF op.inKeys.length
-      ((observe (mapEv (fun r => liftErr (getInputs op r)) src)).1.map Ref.asBatch)
+      ((observe (Ref.skipNT ignore (mapEv (fun r => liftErr (getInputs op r)) src))).1.map Ref.asBatch)
   /-- every successful call returns equally long columns, one per output key -/
   outputs : Rebatch.WF op.outKeys.length
     ((Ref.callGroups ignore op
         (Ref.regroup op.fnBatch op.inKeys.length
-          (observe (mapEv (fun r => liftErr (getInputs op r)) src))).2 s
+          (observe (Ref.skipNT ignore (mapEv (fun r => liftErr (getInputs op r)) src)))).2 s
         (Ref.regroup op.fnBatch op.inKeys.length
-          (observe (mapEv (fun r => liftErr (getInputs op r)) src))).1).1.map Ref.asBatch)
+          (observe (Ref.skipNT ignore (mapEv (fun r => liftErr (getInputs op r)) src)))).1).1.map Ref.asBatch)
+
+theorem skipNT_cleanL {α : Type} (ignore : Bool) (l : List (Ev α)) : CleanL ignore (Ref.skipNT ignore l) := by
+  induction l with
+  | nil => intro e he; simp [Ref.skipNT] at he
+  | cons ev rest ih =>
+    cases ev with
+    | ok a =>
+      intro e he
+      simp only [Ref.skipNT, List.mem_cons] at he
+      rcases he with he | he
+      · cases he
+      · exact ih e he
+    | error e' =>
+      by_cases ht : terminal ignore e' = true
+      · intro e he
+        simp only [Ref.skipNT, ht, if_true, List.mem_cons] at he
+        rcases he with he | he
+        · cases he; exact ht
+        · exact ih e he
+      · simpa [Ref.skipNT, ht] using ih
+
+theorem skipNT_of_clean {α : Type} (ignore : Bool) (l : List (Ev α)) (h : CleanL ignore l) :
+    Ref.skipNT ignore l = l := by
+  induction l with
+  | nil => rfl
+  | cons ev rest ih =>
+    have hr : CleanL ignore rest := fun e he => h e (List.mem_cons_of_mem _ he)
+    cases ev with
+    | ok a => simp [Ref.skipNT, ih hr]
+    | error e => simp [Ref.skipNT, h e (List.mem_cons_self ..), ih hr]
+
+theorem observe_skipNT_mapEv_cut {α β : Type} (ignore : Bool) (f : α → Ev β) (src : List (Ev α)) :
+    observe (Ref.skipNT ignore (mapEv f (cutTerminal ignore src)))
+      = observe (Ref.skipNT ignore (mapEv f src)) := by
+  induction src with
+  | nil => rfl
+  | cons ev rest ih =>
+    cases ev with
+    | error e =>
+      by_cases ht : terminal ignore e = true
+      · simp [cutTerminal, ht, mapEv, Ref.skipNT, observe]
+      · simp [cutTerminal, ht, mapEv, Ref.skipNT, ih]
+    | ok a =>
+      simp only [cutTerminal, mapEv]
+      cases f a with
+      | error e =>
+        by_cases ht : terminal ignore e = true
+        · simp [Ref.skipNT, ht, observe]
+        · simp [Ref.skipNT, ht, ih]
+      | ok b => simp only [Ref.skipNT]; rw [observe_cons_ok, observe_cons_ok, ih]
+
+theorem cleanL_mapEv_cut {α β : Type} (ignore : Bool) (f : α → Ev β) (src : List (Ev α))
+    (h : CleanL ignore (mapEv f src)) : CleanL ignore (mapEv f (cutTerminal ignore src)) := by
+  induction src with
+  | nil => exact h
+  | cons ev rest ih =>
+    have hr : CleanL ignore (mapEv f rest) := by
+      intro e he
+      cases ev with
+      | ok a => exact h e (by simp only [mapEv]; exact List.mem_cons_of_mem _ he)
+      | error e' => exact h e (by simp only [mapEv]; exact List.mem_cons_of_mem _ he)
+    cases ev with
+    | error e =>
+      have ht : terminal ignore e = true := h e (by simp [mapEv])
+      intro e' he'
+      simp only [cutTerminal, ht, if_true, mapEv, List.mem_cons, List.not_mem_nil, or_false] at he'
+      cases he'; exact ht
+    | ok a =>
+      intro e he
+      simp only [cutTerminal, mapEv, List.mem_cons] at he
+      rcases he with he | he
+      · exact h e (by simp only [mapEv]; rw [← he]; exact List.mem_cons_self ..)
+      · exact ih hr e he
 
 theorem observe_err_mem {α : Type} (l : List (Ev α)) (e : Err) (h : (observe l).2 = some e) :
     Except.error e ∈ l := by
@@ -452,34 +527,50 @@ theorem iterEv_spec (ignore : Bool) (op : Op) (src : List (Ev Val))
   have hb : op.batch ≠ 0 := by have := h.batch; omega
   unfold iterEv Ref.batchedCols
   simp only [hb, if_false]
-  generalize hl1c : mapEv (fun r => liftErr (getInputs op r)) (cutTerminal ignore src) = l1c
-  have hp1 : observe l1c = observe (mapEv (fun r => liftErr (getInputs op r)) src) := by
-    rw [← hl1c]; exact observe_mapEv_cut ignore _ src
-  generalize hp1' : observe (mapEv (fun r => liftErr (getInputs op r)) src) = p1 at hp1
+  have hp1 : observe (Ref.skipNT ignore (mapEv (fun r => liftErr (getInputs op r)) (cutTerminal ignore src)))
+      = observe (Ref.skipNT ignore (mapEv (fun r => liftErr (getInputs op r)) src)) :=
+    observe_skipNT_mapEv_cut ignore _ src
+  have hcl1 : op.fnBatch ≠ 0 →
+      CleanL ignore (mapEv (fun r => liftErr (getInputs op r)) (cutTerminal ignore src)) :=
+    fun hf => cleanL_mapEv_cut ignore _ src (h.clean hf)
+  have hin := h.inputs
+  have hout := h.outputs
+  generalize mapEv (fun r => liftErr (getInputs op r)) (cutTerminal ignore src) = l1c at hp1 hcl1
+  generalize observe (Ref.skipNT ignore (mapEv (fun r => liftErr (getInputs op r)) src)) = p1 at hp1 hin hout
   have hclean : ∀ e, p1.2 = some e → terminal ignore e = true := by
     intro e he
-    rw [← hp1'] at he
-    exact h.clean e (observe_err_mem _ e he)
-  have hin : op.fnBatch ≠ 0 → 0 < op.inKeys.length ∧ Rebatch.WF op.inKeys.length (p1.1.map Ref.asBatch) := by
-    intro hf; rw [← hp1']; exact h.inputs hf
-  have hout := h.outputs
-  rw [hp1'] at hout
+    rw [← hp1] at he
+    exact skipNT_cleanL ignore l1c e (observe_err_mem _ e he)
   -- the first re-batcher
   generalize hl2 : (if op.fnBatch = 0 then l1c
       else rebatchEv op.fnBatch op.inKeys.length (Rebatch.St.init op.inKeys.length) l1c) = l2
-  have hp2 : observe l2 = Ref.regroup op.fnBatch op.inKeys.length p1 := by
+  have hp2e : (Ref.regroup op.fnBatch op.inKeys.length p1).2 = p1.2 := by
+    by_cases hf : op.fnBatch = 0
+    · simp [hf, Ref.regroup]
+    · exact regroup_err (hin hf).1 p1 (fun _ => (hin hf).2)
+  have hp2 : observe (Ref.skipNT ignore l2) = Ref.regroup op.fnBatch op.inKeys.length p1 := by
     rw [← hl2]
     by_cases hf : op.fnBatch = 0
     · simp [hf, Ref.regroup, hp1]
     · simp only [hf, if_false]
       obtain ⟨hnin, hwf⟩ := hin hf
-      rw [rebatchEv_wf (by omega) hnin l1c (by rw [hp1]; exact hwf), observe_unobserve, hp1]
-  have hp2e : (Ref.regroup op.fnBatch op.inKeys.length p1).2 = p1.2 := by
-    by_cases hf : op.fnBatch = 0
-    · simp [hf, Ref.regroup]
-    · exact regroup_err (hin hf).1 p1 (fun _ => (hin hf).2)
+      have hsk : Ref.skipNT ignore l1c = l1c := skipNT_of_clean ignore l1c (hcl1 hf)
+      rw [hsk] at hp1
+      rw [rebatchEv_wf (by omega) hnin l1c (by rw [hp1]; exact hwf), hp1]
+      have hc2 : CleanL ignore (Ref.unobserve (Ref.regroup op.fnBatch op.inKeys.length p1)) := by
+        intro e he
+        have hmem : (Ref.regroup op.fnBatch op.inKeys.length p1).2 = some e := by
+          simp only [Ref.unobserve, List.mem_append, List.mem_map] at he
+          rcases he with ⟨a, _, ha⟩ | he
+          · cases ha
+          · cases hx : (Ref.regroup op.fnBatch op.inKeys.length p1).2 with
+            | none => rw [hx] at he; simp at he
+            | some e' => rw [hx] at he; simp at he; rw [he]
+        rw [hp2e] at hmem
+        exact hclean e hmem
+      rw [skipNT_of_clean ignore _ hc2, observe_unobserve]
   -- the call layer
-  have hp3 := observe_callEv ignore op op.s0 l2 (by rw [hp2, hp2e]; exact hclean)
+  have hp3 := observe_callEv ignore op op.s0 l2
   rw [hp2] at hp3
   -- the second re-batcher
   rw [rebatchEv_wf h.batch h.nout _ (by rw [hp3]; exact hout), hp3]
@@ -620,11 +711,15 @@ theorem batchedOKB_sound (ignore : Bool) (op : Op) (s : Nat) (src : List (Ev Val
     (hk : op.kind = .select ∨ op.kind = .apply) (hs : SelfAlone op)
     (h : Ref.batchedOKB ignore op s src = true) : BatchedOK ignore op s src := by
   simp only [Ref.batchedOKB, Bool.and_eq_true, decide_eq_true_eq, Bool.or_eq_true, beq_iff_eq] at h
-  obtain ⟨⟨⟨⟨⟨_, hb⟩, hn⟩, hcl⟩, hin⟩, hout⟩ := h
-  refine ⟨hk, hs, hb, hn, cleanLB_sound ignore _ hcl, ?_, rectB_sound _ _ hout⟩
-  intro hf
-  rcases hin with hin | hin
-  · exact absurd hin hf
-  · exact ⟨hin.1, rectB_sound _ _ hin.2⟩
+  obtain ⟨⟨⟨⟨_, hb⟩, hn⟩, hin⟩, hout⟩ := h
+  refine ⟨hk, hs, hb, hn, ?_, ?_, rectB_sound _ _ hout⟩
+  · intro hf
+    rcases hin with hin | hin
+    · exact absurd hin hf
+    · exact cleanLB_sound ignore _ hin.1.1
+  · intro hf
+    rcases hin with hin | hin
+    · exact absurd hin hf
+    · exact ⟨hin.1.2, rectB_sound _ _ hin.2⟩
 
 end MlModel.Pipe
